@@ -161,21 +161,60 @@ Definition compute_cached (l : listing) (beacon : N) (c : cache) : result bt * c
   | Panic => (Panic, c)
   end.
 
-(* a cache history: successive computations at the given beacons over an unchanged directory *)
-Fixpoint run_history (l : listing) (beacons : list N) (c : cache) : cache :=
-  match beacons with
+(* fn list_immutable_files_to_process_for_range: every immutable file whose number lies in lo..=hi;
+   an empty selection is not an error *)
+Definition to_process_range (l : listing) (lo hi : N) : result (list ifile) :=
+  do fs <- list_all l;
+  Ok (filter (fun f => (lo <=? fnum f) && (fnum f <=? hi)) fs).
+
+(* compute_digests_for_range with a cache provider: the (file name, digest) entries returned, and the
+   cache afterwards *)
+Definition compute_range_cached (l : listing) (lo hi : N) (c : cache) : result (list (name * bt)) * cache :=
+  match to_process_range l lo hi with
+  | Ok fs => (Ok (map (fun f => (fname f, digest_with c f)) fs), updated_cache c fs)
+  | Err => (Err, c)
+  | Panic => (Panic, c)
+  end.
+
+(* a cache history: successive computations over an unchanged directory with one cache provider:
+   Merkle trees at beacons and digest lists for ranges (the two operations of ImmutableDigester that
+   read and write the cache) *)
+Inductive hop := HBeacon (b : N) | HRange (lo hi : N).
+Definition hop_cache (l : listing) (h : hop) (c : cache) : cache :=
+  match h with
+  | HBeacon b => snd (compute_cached l b c)
+  | HRange lo hi => snd (compute_range_cached l lo hi c)
+  end.
+Fixpoint run_history (l : listing) (hs : list hop) (c : cache) : cache :=
+  match hs with
   | [] => c
-  | b :: r => run_history l r (snd (compute_cached l b c))
+  | h :: r => run_history l r (hop_cache l h c)
   end.
 
 (* ---- correspondence: a batch of scenarios over related directories; observed: which scenarios
    fail, and the equality pattern of the roots of those that succeed ---- *)
-Record scenario := { sc_listing : listing; sc_beacon : N; sc_history : list N }.
+Record scenario := { sc_listing : listing; sc_beacon : N; sc_history : list hop;
+                     sc_range : option (N * N) }.   (* after the root: digest list of this range, same cache *)
 
 Definition run_scenario (s : scenario) : result bt :=
   fst (compute_cached (sc_listing s) (sc_beacon s) (run_history (sc_listing s) (sc_history s) [])).
 
+(* the digest list served for [sc_range] after the history and the root computation *)
+Definition run_scenario_range (s : scenario) : option (result (list (name * bt))) :=
+  match sc_range s with
+  | None => None
+  | Some (lo, hi) =>
+      let c := hop_cache (sc_listing s) (HBeacon (sc_beacon s)) (run_history (sc_listing s) (sc_history s) []) in
+      Some (fst (compute_range_cached (sc_listing s) lo hi c))
+  end.
+
 Definition run (ss : list scenario) : obs :=
   let rs := map run_scenario ss in
   let oks := flat_map (fun r => match r with Ok t => [t] | _ => [] end) rs in
-  OL [ OL (map (fun r => OB (is_ok r)) rs); OLN (eq_pattern oks) ].
+  let ds := flat_map (fun s => match run_scenario_range s with Some d => [d] | None => [] end) ss in
+  let dhashes := flat_map (fun d => match d with Ok l => map snd l | _ => [] end) ds in
+  OL [ OL (map (fun r => OB (is_ok r)) rs);
+       OL (map (fun d => match d with
+                         | Ok l => OL [OB true; OL (map (fun p => OLN (fst p)) l)]
+                         | _ => OL [OB false] end) ds);
+       OLN (eq_pattern (oks ++ dhashes)) ].
